@@ -33,6 +33,9 @@ class Communities(Attribute):
     Stores packed wire-format bytes. Each community is 4 bytes.
     """
 
+    # RFC 7606 7.8 / 7.14 / 7.15: a malformed attribute is treat-as-withdraw
+    TREAT_AS_WITHDRAW = True
+
     ID = Attribute.CODE.COMMUNITY
     FLAG = Attribute.Flag.TRANSITIVE | Attribute.Flag.OPTIONAL
 
